@@ -45,6 +45,8 @@ def tamperBytes (kind : String) (b : Bytes) (idx arg : Nat) : Bytes :=
     if b.length = 0 then b else
     let j := idx % b.length
     b.take j ++ b.drop (j + 1)
+  else if kind == "t" || kind == "c" then
+    if b.length = 0 then b else b.take (idx % b.length)
   else
     let j := idx % (b.length + 1)
     b.take j ++ [UInt8.ofNat arg] ++ b.drop j
@@ -91,8 +93,14 @@ def applyTamper (p : SendPacket) (t : String) : Option (SendPacket × Bool × Bo
     | [k, f, idx, arg] =>
       match idx.toNat?, arg.toNat? with
       | some idx, some arg =>
-        if ¬ (k == "f" ∨ k == "d" ∨ k == "i") ∨ arg > 255 then none else
-        if f == "payload" then let v := tamperBytes k p.payload idx arg; some ({ p with payload := v }, v != p.payload, false)
+        if ¬ (k == "f" ∨ k == "d" ∨ k == "i" ∨ k == "t" ∨ k == "c") ∨ arg > 255 ∨ ((k == "t" ∨ k == "c") ∧ f != "payload") then none else
+        if f == "payload" && k == "c" then
+          -- combined: truncated ciphertext + forged msg key (bit of its first byte) + altered channel id
+          let mk := match p.msgKey with
+            | [] => []
+            | b :: r => (b ^^^ UInt8.ofNat (2 ^ (arg % 8))) :: r
+          some ({ p with payload := tamperBytes k p.payload idx arg, msgKey := mk, channelID := p.channelID ++ [88] }, true, false)
+        else if f == "payload" then let v := tamperBytes k p.payload idx arg; some ({ p with payload := v }, v != p.payload, false)
         else if f == "msgkey" then let v := tamperBytes k p.msgKey idx arg; some ({ p with msgKey := v }, v != p.msgKey, false)
         else if f == "msgno" then let v := tamperBytes k p.clientMsgNo idx arg; some ({ p with clientMsgNo := v }, v != p.clientMsgNo, false)
         else if f == "chid" then let v := tamperBytes k p.channelID idx arg; some ({ p with channelID := v }, v != p.channelID, false)
